@@ -1,19 +1,31 @@
 import GoguVerif.Gen.Funcs
 import GoguVerif.Model.C13
 import GoguVerif.Model.C12
+import GoguVerif.Model.C11
+import GoguVerif.Model.C15
 /-!
 # The regenerated tie: mechanically translated Go = hand-written model
 
 `Gen/Funcs.lean` is produced on every run by `translator/frag.go` from the Go source of /repo (a
 statement-by-statement translation of a small fragment of Go).  Each theorem below states that the
 regenerated definition equals the hand-written model that the property theorems (C12, C13) are
-about — for ALL inputs.  For these 21 functions the model is therefore tied to the code by the
-translator itself, not only by the sampled correspondence run.  A change of the Go source changes the
+about — for ALL inputs.  For these functions the model is therefore tied to the code by the
+translator itself, not only by the sampled correspondence run.
+
+Statement forms.  Pure functions: `Gen.Funcs.F args = Model.Cxx.f args`.  Functions translated in RES mode
+(`Res α = Except Exc α`, see translator/frag.go): `Gen.Funcs.F args = ofC12 (Model.C12.f args)` /
+`ofC15 (…)` where `ofC12`, `ofC15` are the (injective) embeddings of the model's outcome type into `Res`, or
+`toOut (Gen.Funcs.F args) = Model.C13.f args` where `toOut` is the (injective) embedding of `Res` into the
+C13 outcome type.  The C12 iterators are modelled with state-passing callbacks; their tie is stated for pure
+callbacks (`mapPure`, `reduce` with a callback that leaves the state alone).  The set helpers of C11 are
+modelled with the key list of the Go `map[T]bool`; the regenerated definition uses an association list
+(`mapHas`/`mapSet`), and the proofs carry the invariant that both stand for the same set (`SameKeys`).  A change of the Go source changes the
 regenerated definition; if the new definition is no longer equal to the model, the corresponding
 theorem stops checking (bin/check then explores with the thorough generators, DESIGN.md §15).
 -/
 namespace GoguVerif.Theorems.GenTie
 open GoguVerif
+open GoguVerif.Gen.Funcs (Res Exc goIdx goSlice goSet goDiv goMod goMake goRepeat mapHas mapSet mapGet)
 
 /-- the value a loop with early `return` yields: the returned value, or the default when it ran to the end -/
 def fromSum {α σ : Type} (d : α) : α ⊕ σ → α
@@ -234,5 +246,702 @@ theorem partition_loop (s0 : List Int) (fn : Int → Bool) (s : List Int) (k : I
 
 theorem partition_tie (s : List Int) (fn : Int → Bool) : Gen.Funcs.Partition s fn = Model.C12.partition s fn := by
   simp [Gen.Funcs.Partition, Model.C12.partition, partition_loop]
+
+/-! # Second batch: RES mode, counting loops, maps as sets, strings -/
+
+def toOut {α : Type} : Res α → Spec.C13.Out α
+  | .ok a => .ok a
+  | .error .err => .err
+  | .error .panic => .panic
+
+def ofC12 {α : Type} : Model.C12.Outcome α → Res α
+  | .ok a => .ok a
+  | .panic => .error .panic
+
+def ofC15 {α : Type} : Model.C15.Outcome α → Res α
+  | .ok a => .ok a
+  | .panic => .error .panic
+
+theorem mean_loop (s0 s : List Int) (i acc : Int) :
+    Gen.Funcs.Mean.loop1 s0 s i acc = Model.C13.sumLoop s acc := by
+  induction s generalizing i acc with
+  | nil => rfl
+  | cons v r ih => simp only [Gen.Funcs.Mean.loop1, Model.C13.sumLoop, ih]
+
+theorem mean_tie (s : List Int) : toOut (Gen.Funcs.Mean s) = Model.C13.Mean s := by
+  simp only [Gen.Funcs.Mean, Model.C13.Mean, mean_loop, goDiv]
+  by_cases h : s.length = 0
+  · simp [h, toOut]
+  · have : ¬ ((s.length : Int) = 0) := by omega
+    simp [h, toOut]
+
+theorem reduce_loop (s0 : List Int) (fn : Int → Int → Int) (iv : Int) (s : List Int) (k a : Int) :
+    (Gen.Funcs.Reduce.loop1 s0 fn iv s k a, ()) = Model.C12.reduce (fun v a st => (fn v a, st)) s a () := by
+  induction s generalizing k a with
+  | nil => rfl
+  | cons v r ih => simp only [Gen.Funcs.Reduce.loop1, Model.C12.reduce, ih]
+
+theorem reduce_tie (s : List Int) (fn : Int → Int → Int) (iv : Int) :
+    (Gen.Funcs.Reduce s fn iv, ()) = Model.C12.reduce (fun v a st => (fn v a, st)) s iv () := by
+  simp only [Gen.Funcs.Reduce, reduce_loop]
+
+theorem dropWhile_loop (s0 : List Int) (fn : Int → Bool) (s : List Int) (k : Int) (res : List Int) :
+    Gen.Funcs.DropWhile.loop1 s0 fn s k res = Model.C12.dropWhileLoop fn s res := by
+  induction s generalizing k res with
+  | nil => rfl
+  | cons v r ih =>
+    simp only [Gen.Funcs.DropWhile.loop1, Model.C12.dropWhileLoop]
+    cases h : fn v <;> simp [ih]
+
+theorem dropWhile_tie (s : List Int) (fn : Int → Bool) : Gen.Funcs.DropWhile s fn = Model.C12.dropWhile s fn := by
+  simp [Gen.Funcs.DropWhile, Model.C12.dropWhile, dropWhile_loop]
+
+theorem merge_loop (s0 : List Int) (p0 ps : List (List Int)) (i : Int) (m : List Int) :
+    Gen.Funcs.Merge.loop1 s0 p0 ps i m = Model.C12.mergeLoop ps m := by
+  induction ps generalizing i m with
+  | nil => rfl
+  | cons p r ih => simp only [Gen.Funcs.Merge.loop1, Model.C12.mergeLoop, ih]
+
+theorem merge_tie (s : List Int) (params : List (List Int)) : Gen.Funcs.Merge s params = Model.C12.merge s params := by
+  simp [Gen.Funcs.Merge, Model.C12.merge, merge_loop]
+
+theorem goSlice_c12 {α : Type} (s : List α) (lo hi : Int) : goSlice s lo hi = ofC12 (Model.C12.sliceOf s lo hi) := by
+  unfold goSlice Model.C12.sliceOf
+  split <;> rfl
+
+theorem goSlice_c15 (s : List UInt8) (lo hi : Int) : goSlice s lo hi = ofC15 (Model.C15.goSlice s lo hi) := by
+  unfold goSlice Model.C15.goSlice
+  split <;> rfl
+
+theorem drop_tie (s : List Int) (n : Int) : Gen.Funcs.Drop s n = ofC12 (Model.C12.drop s n) := by
+  simp only [Gen.Funcs.Drop, Model.C12.drop, goSlice_c12, Gen.Funcs.Abs, Model.C12.abs]
+  by_cases h1 : n > -(s.length : Int) <;> by_cases h2 : n < s.length <;> by_cases h3 : n > 0 <;>
+    simp [h1, h2, h3, ofC12] <;> (cases Model.C12.sliceOf _ _ _ <;> rfl)
+
+
+def resSum {α σ : Type} (d : α) : Res (α ⊕ σ) → Res α
+  | .error e => .error e
+  | .ok (.inl r) => .ok r
+  | .ok (.inr _) => .ok d
+
+theorem goIdx_nat {α : Type} (s : List α) (n : Nat) :
+    goIdx s (n : Int) = match s[n]? with | some v => Except.ok v | none => Except.error Exc.panic := by
+  unfold goIdx
+  have : ¬ ((n : Int) < 0) := by omega
+  simp only [this, if_false, Int.toNat_natCast]
+  cases s[n]? <;> rfl
+
+theorem lastIndexOf_loop (s : List Int) (val : Int) (n : Nat) (j : Int) :
+    toOut (resSum (-1 : Int) (Gen.Funcs.LastIndexOf.loop1 s val n j)) = Model.C13.lastIndexOfLoop val s n := by
+  induction n generalizing j with
+  | zero => rfl
+  | succ n ih =>
+    simp only [Gen.Funcs.LastIndexOf.loop1, Model.C13.lastIndexOfLoop, goIdx_nat]
+    cases h : s[n]? with
+    | none => rfl
+    | some v =>
+      simp only []
+      by_cases hv : v = val
+      · simp [hv, resSum, toOut]
+      · simp only [hv, decide_false, Bool.false_eq_true, if_false]
+        exact ih _
+
+theorem len_toNat (n : Nat) : ((n : Int) - 1 + 1).toNat = n := by omega
+
+theorem lastIndexOf_tie (s : List Int) (val : Int) :
+    toOut (Gen.Funcs.LastIndexOf s val) = Model.C13.LastIndexOf s val := by
+  have h := lastIndexOf_loop s val s.length 0
+  simp only [Gen.Funcs.LastIndexOf, Model.C13.LastIndexOf, len_toNat]
+  rw [← h]
+  cases Gen.Funcs.LastIndexOf.loop1 s val s.length 0 with
+  | error e => rfl
+  | ok r => cases r <;> rfl
+
+theorem findLastIndex_loop (s : List Int) (fn : Int → Bool) (n : Nat) (j : Int) :
+    toOut (resSum (-1 : Int) (Gen.Funcs.FindLastIndex.loop1 s fn n j)) = Model.C13.findLastIndexLoop fn s n := by
+  induction n generalizing j with
+  | zero => rfl
+  | succ n ih =>
+    simp only [Gen.Funcs.FindLastIndex.loop1, Model.C13.findLastIndexLoop, goIdx_nat]
+    cases h : s[n]? with
+    | none => rfl
+    | some v =>
+      simp only []
+      cases hv : fn v
+      · simp only [Bool.false_eq_true, if_false]
+        exact ih _
+      · simp [resSum, toOut]
+
+theorem findLastIndex_tie (s : List Int) (fn : Int → Bool) :
+    toOut (Gen.Funcs.FindLastIndex s fn) = Model.C13.FindLastIndex s fn := by
+  have h := findLastIndex_loop s fn s.length 0
+  simp only [Gen.Funcs.FindLastIndex, Model.C13.FindLastIndex, len_toNat]
+  rw [← h]
+  cases Gen.Funcs.FindLastIndex.loop1 s fn s.length 0 with
+  | error e => rfl
+  | ok r => cases r <;> rfl
+
+theorem dropRightWhile_loop (s : List Int) (fn : Int → Bool) (n : Nat) (res : List Int) :
+    Gen.Funcs.DropRightWhile.loop1 s fn n res = ofC12 (Model.C12.dropRightWhileLoop fn s n res) := by
+  induction n generalizing res with
+  | zero => rfl
+  | succ n ih =>
+    simp only [Gen.Funcs.DropRightWhile.loop1, Model.C12.dropRightWhileLoop, goIdx_nat]
+    cases h : s[n]? with
+    | none => rfl
+    | some v =>
+      simp only []
+      cases hv : fn v <;> simp [ih]
+
+theorem dropRightWhile_tie (s : List Int) (fn : Int → Bool) :
+    Gen.Funcs.DropRightWhile s fn = ofC12 (Model.C12.dropRightWhile s fn) := by
+  simp only [Gen.Funcs.DropRightWhile, Model.C12.dropRightWhile, len_toNat, dropRightWhile_loop]
+  cases Model.C12.dropRightWhileLoop fn s s.length [] <;> rfl
+
+theorem goSet_nat {α : Type} (s : List α) (k : Nat) (v : α) :
+    goSet s (k : Int) v = if k < s.length then Except.ok (s.set k v) else Except.error Exc.panic := by
+  unfold goSet
+  by_cases h : k < s.length
+  · have : 0 ≤ (k : Int) ∧ (k : Int) < (s.length : Int) := by omega
+    simp [h, this]
+  · simp [h]
+
+/-- `Map` with a pure callback, the model's result projected to the slice -/
+def c12Fst {α σ : Type} : Model.C12.Outcome (α × σ) → Model.C12.Outcome α
+  | .ok r => .ok r.1
+  | .panic => .panic
+
+theorem map_loop (s0 : List Int) (fn : Int → Int) (s : List Int) (k : Nat) (res : List Int) :
+    Gen.Funcs.Map.loop1 s0 fn s (k : Int) res
+      = ofC12 (c12Fst (Model.C12.mapLoop (fun x (_ : Unit) => (fn x, ())) s k res ())) := by
+  induction s generalizing k res with
+  | nil => rfl
+  | cons v r ih =>
+    simp only [Gen.Funcs.Map.loop1, Model.C12.mapLoop, goSet_nat]
+    by_cases h : k < res.length
+    · simp only [h, if_true]
+      have := ih (k + 1) (res.set k (fn v))
+      simpa using this
+    · simp [h, c12Fst, ofC12]
+
+theorem map_tie (s : List Int) (fn : Int → Int) : Gen.Funcs.Map s fn = ofC12 (Model.C12.mapPure s fn) := by
+  have h := map_loop s fn s 0 (List.replicate s.length 0)
+  simp only [Gen.Funcs.Map, Model.C12.mapPure, Model.C12.map]
+  simp only [Int.natCast_zero] at h
+  rw [h]
+  have hd : (default : Int) = 0 := rfl
+  rw [hd]
+  cases Model.C12.mapLoop (fun x (_ : Unit) => (fn x, ())) s 0 (List.replicate s.length 0) () <;> rfl
+
+
+/-! ## string.go (C15) -/
+
+theorem wrap_tie (str tok : List UInt8) : Gen.Funcs.Wrap str tok = Model.C15.wrap str tok := by
+  simp [Gen.Funcs.Wrap, Model.C15.wrap]
+
+theorem goRepeat_c15 (s : List UInt8) (n : Int) : goRepeat s n = ofC15 (Model.C15.goRepeat s n) := by
+  unfold goRepeat Model.C15.goRepeat
+  split <;> rfl
+
+theorem unwrap_tie (str tok : List UInt8) : Gen.Funcs.Unwrap str tok = ofC15 (Model.C15.unwrap str tok) := by
+  have e1 : ((tok.length : Int) > 0) ↔ tok.length > 0 := by omega
+  have e2 : ((str.length : Int) ≥ 2 * (tok.length : Int)) ↔ (str.length ≥ 2 * tok.length) := by omega
+  simp only [Gen.Funcs.Unwrap, Model.C15.unwrap, goSlice_c15, e1, e2]
+  by_cases h1 : tok.length > 0 <;> by_cases h2 : str.length ≥ 2 * tok.length <;>
+    cases h3 : tok.isPrefixOf str <;> cases h4 : tok.isSuffixOf str <;>
+    simp [h1, h2, ofC15] <;>
+    (cases Model.C15.goSlice _ _ _ <;> rfl)
+
+theorem splitAtIndex_tie (str : List UInt8) (index : Int) :
+    Gen.Funcs.SplitAtIndex str index = ofC15 (Model.C15.splitAtIndex str index) := by
+  simp only [Gen.Funcs.SplitAtIndex, Model.C15.splitAtIndex, goSlice_c15]
+  by_cases h1 : index < 0 <;> by_cases h2 : index > (str.length : Int) - 1 <;> simp [h1, h2, ofC15]
+  all_goals
+    cases Model.C15.goSlice str 0 (index + 1) <;> cases Model.C15.goSlice str (index + 1) str.length <;> rfl
+
+theorem padLeft_tie (str : List UInt8) (size : Int) (tok : List UInt8) :
+    Gen.Funcs.PadLeft str size tok = ofC15 (Model.C15.padLeft str size tok) := by
+  simp only [Gen.Funcs.PadLeft, Model.C15.padLeft, Model.C15.padToken, goSlice_c15, goRepeat_c15]
+  by_cases h1 : size ≤ (str.length : Int) <;> by_cases h2 : (tok.length : Int) ≤ size - str.length <;>
+    simp [h1, h2, ofC15, Model.C15.Outcome.bind]
+  · cases Model.C15.goRepeat tok (size - str.length) with
+    | panic => rfl
+    | ok t => simp only []; cases Model.C15.goSlice t 0 (size - str.length) <;> rfl
+  · cases Model.C15.goSlice tok 0 (size - str.length) <;> rfl
+
+theorem padRight_tie (str : List UInt8) (size : Int) (tok : List UInt8) :
+    Gen.Funcs.PadRight str size tok = ofC15 (Model.C15.padRight str size tok) := by
+  simp only [Gen.Funcs.PadRight, Model.C15.padRight, Model.C15.padToken, goSlice_c15, goRepeat_c15]
+  by_cases h1 : size ≤ (str.length : Int) <;> by_cases h2 : (tok.length : Int) ≤ size - str.length <;>
+    simp [h1, h2, ofC15, Model.C15.Outcome.bind]
+  · cases Model.C15.goRepeat tok (size - str.length) with
+    | panic => rfl
+    | ok t => simp only []; cases Model.C15.goSlice t 0 (size - str.length) <;> rfl
+  · cases Model.C15.goSlice tok 0 (size - str.length) <;> rfl
+
+
+theorem ofC15_ok_nil : (Except.ok ([] : List UInt8) : Res (List UInt8)) = ofC15 (Model.C15.Outcome.ok []) := rfl
+
+theorem dec_abs_gt (x n : Int) : decide (Gen.Funcs.Abs x > n) = (decide (x > n) || decide (-x > n)) := by
+  unfold Gen.Funcs.Abs
+  by_cases h : x < 0 <;> simp [h] <;> omega
+
+theorem abs15_gt (x n : Int) : (Model.C15.abs x > n) ↔ (x > n ∨ -x > n) := by
+  unfold Model.C15.abs
+  by_cases h : x < 0 <;> simp [h] <;> omega
+
+theorem inRange_gen (a lo hi : Int) : Gen.Funcs.InRange a lo hi = (decide (a ≥ lo) && decide (a ≤ hi)) := by
+  unfold Gen.Funcs.InRange
+  cases decide (a ≥ lo) <;> cases decide (a ≤ hi) <;> rfl
+
+theorem substr_tie (str : List UInt8) (offset length : Int) :
+    Gen.Funcs.Substr str offset length = ofC15 (Model.C15.substr str offset length) := by
+  simp only [Gen.Funcs.Substr, Gen.Funcs.Null_Str, Model.C15.substr,
+    Model.C15.substrLen, Model.C15.substrEnd, Model.C15.inRange, goSlice_c15, dec_abs_gt, abs15_gt, inRange_gen]
+  generalize (str.length : Int) = n
+  by_cases h1 : offset < 0 <;> by_cases h3 : length < 0 <;> simp only [h1, h3, decide_true, decide_false, if_true, if_false, Bool.false_eq_true]
+  all_goals simp only [apply_ite ofC15, Bool.or_eq_true, decide_eq_true_eq, Bool.not_eq_true', Bool.and_eq_false_iff, decide_eq_false_iff_not]
+  all_goals
+    (try simp only [show ∀ x : Int, (x + length < x) = False from fun x => by
+      simp only [eq_iff_iff, iff_false]; omega, if_false])
+    repeat' split
+    all_goals first | rfl | omega | (symm; assumption)
+
+
+/-! ## set helpers of slice.go (C11): a Go `map[T]bool` used as a set -/
+
+/-- the association list `m` and the key list `ks` of the model stand for the same set -/
+def SameKeys {β : Type} (m : List (Int × β)) (ks : List Int) : Prop := ∀ x, mapHas m x = true ↔ x ∈ ks
+
+theorem mapHas_mapSet {β : Type} (m : List (Int × β)) (k x : Int) (v : β) :
+    mapHas (mapSet m k v) x = (decide (k = x) || mapHas m x) := by
+  induction m with
+  | nil => simp [mapSet, mapHas]
+  | cons e r ih =>
+    simp only [mapSet, mapHas]
+    by_cases h : e.1 = k
+    · subst h; simp only [if_true, mapHas]; by_cases h2 : e.1 = x <;> simp [h2]
+    · simp only [h, if_false, mapHas, ih]
+      by_cases h2 : e.1 = x
+      · simp [h2]
+      · simp [h2]
+
+theorem sameKeys_nil {β : Type} : SameKeys ([] : List (Int × β)) [] := by
+  intro x; simp [mapHas]
+
+theorem sameKeys_set {β : Type} (m : List (Int × β)) (ks : List Int) (k : Int) (v : β) (h : SameKeys m ks) :
+    SameKeys (mapSet m k v) (k :: ks) := by
+  intro x
+  rw [mapHas_mapSet]
+  have := h x
+  simp only [Bool.or_eq_true, decide_eq_true_eq, List.mem_cons]
+  constructor
+  · rintro (h1 | h1)
+    · exact Or.inl h1.symm
+    · exact Or.inr (this.mp h1)
+  · rintro (h1 | h1)
+    · exact Or.inl h1.symm
+    · exact Or.inr (this.mpr h1)
+
+theorem sameKeys_has {β : Type} {m : List (Int × β)} {ks : List Int} (h : SameKeys m ks) (x : Int) :
+    mapHas m x = decide (x ∈ ks) := by
+  have := h x
+  by_cases hx : x ∈ ks
+  · simp [hx, this.mpr hx]
+  · have : mapHas m x ≠ true := fun c => hx (this.mp c)
+    simp [hx, this]
+
+theorem unique_loop (s0 s : List Int) (i : Int) (m : List (Int × Bool)) (ks res : List Int) (h : SameKeys m ks) :
+    (Gen.Funcs.Unique.loop1 s0 s i (m, res)).2 = Model.C11.uniqueLoop ks res s := by
+  induction s generalizing i m ks res with
+  | nil => rfl
+  | cons v r ih =>
+    simp only [Gen.Funcs.Unique.loop1, Model.C11.uniqueLoop, sameKeys_has h]
+    by_cases hv : v ∈ ks
+    · simp only [hv, decide_true, Bool.not_true, Bool.false_eq_true, if_false, if_true]
+      exact ih _ _ _ _ h
+    · simp only [hv, decide_false, Bool.not_false, if_true, if_false]
+      exact ih _ _ _ _ (sameKeys_set m ks v true h)
+
+theorem unique_tie (s : List Int) : Gen.Funcs.Unique s = Model.C11.unique s := by
+  simp only [Gen.Funcs.Unique, Model.C11.unique]
+  exact unique_loop s s 0 [] [] [] sameKeys_nil
+
+theorem uniqueBy_loop (s0 : List Int) (fn : Int → Int) (s : List Int) (i : Int) (m : List (Int × Bool))
+    (ks res : List Int) (h : SameKeys m ks) :
+    (Gen.Funcs.UniqueBy.loop1 s0 fn s i (m, res)).2 = Model.C11.uniqueByLoop fn ks res s := by
+  induction s generalizing i m ks res with
+  | nil => rfl
+  | cons v r ih =>
+    simp only [Gen.Funcs.UniqueBy.loop1, Model.C11.uniqueByLoop, sameKeys_has h]
+    by_cases hv : fn v ∈ ks
+    · simp only [hv, decide_true, Bool.not_true, Bool.false_eq_true, if_false, if_true]
+      exact ih _ _ _ _ h
+    · simp only [hv, decide_false, Bool.not_false, if_true, if_false]
+      exact ih _ _ _ _ (sameKeys_set m ks (fn v) true h)
+
+theorem uniqueBy_tie (s : List Int) (fn : Int → Int) : Gen.Funcs.UniqueBy s fn = Model.C11.uniqueBy s fn := by
+  simp only [Gen.Funcs.UniqueBy, Model.C11.uniqueBy]
+  exact uniqueBy_loop s fn s 0 [] [] [] sameKeys_nil
+
+
+theorem without_scan (s0 vals0 : List Int) (v : Int) (vals : List Int) (k : Int) :
+    Gen.Funcs.Without.loop2 s0 vals0 v vals k () = if Model.C11.skipEq v vals then Sum.inl () else Sum.inr () := by
+  induction vals generalizing k with
+  | nil => rfl
+  | cons x r ih =>
+    simp only [Gen.Funcs.Without.loop2, Model.C11.skipEq]
+    by_cases h : v = x
+    · simp [h]
+    · simp only [h, decide_false, Bool.false_eq_true, if_false]; exact ih _
+
+theorem without_loop (s0 vals s : List Int) (i : Int) (m : List (Int × Bool)) (ks res : List Int) (h : SameKeys m ks) :
+    (Gen.Funcs.Without.loop1 s0 vals s i (m, res)).2 = Model.C11.diffLoop vals ks res s := by
+  induction s generalizing i m ks res with
+  | nil => rfl
+  | cons v r ih =>
+    simp only [Gen.Funcs.Without.loop1, Model.C11.diffLoop, without_scan, sameKeys_has h]
+    cases hs : Model.C11.skipEq v vals
+    · simp only [Bool.false_eq_true, if_false]
+      by_cases hv : v ∈ ks
+      · simp only [hv, decide_true, Bool.not_true, Bool.false_eq_true, if_false, if_true]
+        exact ih _ _ _ _ h
+      · simp only [hv, decide_false, Bool.not_false, if_true, if_false]
+        exact ih _ _ _ _ (sameKeys_set m ks v true h)
+    · simp only [if_true]
+      exact ih _ _ _ _ h
+
+theorem without_tie (s vals : List Int) : Gen.Funcs.Without s vals = Model.C11.without s vals := by
+  simp only [Gen.Funcs.Without, Model.C11.without]
+  exact without_loop s vals s 0 [] [] [] sameKeys_nil
+
+theorem difference_scan (s1 s2 : List Int) (v : Int) (vals : List Int) (k : Int) :
+    Gen.Funcs.Difference.loop2 s1 s2 v vals k () = if Model.C11.skipEq v vals then Sum.inl () else Sum.inr () := by
+  induction vals generalizing k with
+  | nil => rfl
+  | cons x r ih =>
+    simp only [Gen.Funcs.Difference.loop2, Model.C11.skipEq]
+    by_cases h : v = x
+    · simp [h]
+    · simp only [h, decide_false, Bool.false_eq_true, if_false]; exact ih _
+
+theorem difference_loop (s1 s2 s : List Int) (i : Int) (m : List (Int × Bool)) (ks res : List Int) (h : SameKeys m ks) :
+    (Gen.Funcs.Difference.loop1 s1 s2 s i (m, res)).2 = Model.C11.diffLoop s2 ks res s := by
+  induction s generalizing i m ks res with
+  | nil => rfl
+  | cons v r ih =>
+    simp only [Gen.Funcs.Difference.loop1, Model.C11.diffLoop, difference_scan, sameKeys_has h]
+    cases hs : Model.C11.skipEq v s2
+    · simp only [Bool.false_eq_true, if_false]
+      by_cases hv : v ∈ ks
+      · simp only [hv, decide_true, Bool.not_true, Bool.false_eq_true, if_false, if_true]
+        exact ih _ _ _ _ h
+      · simp only [hv, decide_false, Bool.not_false, if_true, if_false]
+        exact ih _ _ _ _ (sameKeys_set m ks v true h)
+    · simp only [if_true]
+      exact ih _ _ _ _ h
+
+theorem difference_tie (s1 s2 : List Int) : Gen.Funcs.Difference s1 s2 = Model.C11.difference s1 s2 := by
+  simp only [Gen.Funcs.Difference, Model.C11.difference]
+  exact difference_loop s1 s2 s1 0 [] [] [] sameKeys_nil
+
+theorem differenceBy_scan (s1 s2 : List Int) (fn : Int → Int) (v : Int) (vals : List Int) (k : Int) :
+    Gen.Funcs.DifferenceBy.loop2 s1 s2 fn v vals k ()
+      = if Model.C11.skipByEq fn v vals then Sum.inl () else Sum.inr () := by
+  induction vals generalizing k with
+  | nil => rfl
+  | cons x r ih =>
+    simp only [Gen.Funcs.DifferenceBy.loop2, Model.C11.skipByEq]
+    by_cases h : fn v = fn x
+    · simp [h]
+    · simp only [h, decide_false, Bool.false_eq_true, if_false]; exact ih _
+
+theorem differenceBy_loop (s1 s2 : List Int) (fn : Int → Int) (s : List Int) (i : Int) (m : List (Int × Bool))
+    (ks res : List Int) (h : SameKeys m ks) :
+    (Gen.Funcs.DifferenceBy.loop1 s1 s2 fn s i (m, res)).2 = Model.C11.diffByLoop fn s2 ks res s := by
+  induction s generalizing i m ks res with
+  | nil => rfl
+  | cons v r ih =>
+    simp only [Gen.Funcs.DifferenceBy.loop1, Model.C11.diffByLoop, differenceBy_scan, sameKeys_has h]
+    cases hs : Model.C11.skipByEq fn v s2
+    · simp only [Bool.false_eq_true, if_false]
+      by_cases hv : v ∈ ks
+      · simp only [hv, decide_true, Bool.not_true, Bool.false_eq_true, if_false, if_true]
+        exact ih _ _ _ _ h
+      · simp only [hv, decide_false, Bool.not_false, if_true, if_false]
+        exact ih _ _ _ _ (sameKeys_set m ks v true h)
+    · simp only [if_true]
+      exact ih _ _ _ _ h
+
+theorem differenceBy_tie (s1 s2 : List Int) (fn : Int → Int) :
+    Gen.Funcs.DifferenceBy s1 s2 fn = Model.C11.differenceBy s1 s2 fn := by
+  simp only [Gen.Funcs.DifferenceBy, Model.C11.differenceBy]
+  exact differenceBy_loop s1 s2 fn s1 0 [] [] [] sameKeys_nil
+
+/-! ## FindAll: the map `m[k] = v` with strictly increasing keys is an append -/
+
+theorem mapSet_fresh {β : Type} (m : List (Int × β)) (k : Int) (v : β) (h : mapHas m k = false) :
+    mapSet m k v = m ++ [(k, v)] := by
+  induction m with
+  | nil => rfl
+  | cons e r ih =>
+    simp only [mapHas] at h
+    by_cases he : e.1 = k
+    · simp [he] at h
+    · simp only [he, if_false] at h
+      simp [mapSet, he, ih h]
+
+theorem findAll_loop (s0 : List Int) (fn : Int → Bool) (s : List Int) (k : Nat) (m : List (Int × Int))
+    (hm : ∀ x, (k : Int) ≤ x → mapHas m x = false) :
+    Gen.Funcs.FindAll.loop1 s0 fn s (k : Int) m = Model.C13.findAllLoop fn s k m := by
+  induction s generalizing k m with
+  | nil => rfl
+  | cons v r ih =>
+    simp only [Gen.Funcs.FindAll.loop1, Model.C13.findAllLoop]
+    cases hv : fn v
+    · simp only [Bool.false_eq_true, if_false]
+      have := ih (k + 1) m (fun x hx => hm x (by omega))
+      simpa using this
+    · simp only [if_true]
+      rw [mapSet_fresh m k v (hm k (by omega))]
+      have := ih (k + 1) (m ++ [((k : Int), v)]) (fun x hx => by
+        rw [← mapSet_fresh m k v (hm k (by omega)), mapHas_mapSet, hm x (by omega)]
+        have : ¬ ((k : Int) = x) := by omega
+        simp [this])
+      simpa using this
+
+theorem findAll_tie (s : List Int) (fn : Int → Bool) : Gen.Funcs.FindAll s fn = Model.C13.FindAll s fn := by
+  simp only [Gen.Funcs.FindAll, Model.C13.FindAll]
+  exact findAll_loop s fn s 0 [] (fun x _ => rfl)
+
+
+/-! ## Chunk -/
+
+theorem chunk_loop (slice : List Int) (sz : Nat) (hsz : 0 < sz) (rest : List Int) (i : Nat) (result : List (List Int)) :
+    Gen.Funcs.Chunk.loop1 slice (sz : Int) rest (i : Int) result
+      = ofC12 (Model.C12.chunkLoop slice sz rest.length i result) := by
+  induction rest generalizing i result with
+  | nil => rfl
+  | cons x r ih =>
+    have hne : ¬ ((sz : Int) = 0) := by omega
+    have hmod : (i : Int).tmod (sz : Int) = ((i % sz : Nat) : Int) := (Int.ofNat_tmod i sz).symm
+    have hz : (((i % sz : Nat) : Int) = 0) ↔ (i % sz = 0) := by omega
+    have hlt : ((i : Int) + (sz : Int) < (slice.length : Int)) ↔ (i + sz < slice.length) := by omega
+    simp only [Gen.Funcs.Chunk.loop1, Model.C12.chunkLoop, List.length_cons, goMod, hne, if_false, hmod, hz, hlt,
+      goSlice_c12]
+    by_cases h1 : i % sz = 0
+    · simp only [h1, decide_true, if_true]
+      by_cases h2 : i + sz < slice.length
+      · simp only [h2, decide_true, if_true]
+        have e : ((i : Int) + (sz : Int)) = ((i + sz : Nat) : Int) := by omega
+        rw [e]
+        cases Model.C12.sliceOf slice (i : Int) ((i + sz : Nat) : Int) with
+        | panic => rfl
+        | ok c =>
+          have := ih (i + 1) (result ++ [c])
+          simpa [ofC12] using this
+      · simp only [h2, decide_false, Bool.false_eq_true, if_false]
+        cases Model.C12.sliceOf slice (i : Int) (slice.length : Int) with
+        | panic => rfl
+        | ok c =>
+          have := ih (i + 1) (result ++ [c])
+          simpa [ofC12] using this
+    · simp only [h1, decide_false, Bool.false_eq_true, if_false]
+      have := ih (i + 1) result
+      simpa using this
+
+theorem chunk_tie (slice : List Int) (size : Int) : Gen.Funcs.Chunk slice size = ofC12 (Model.C12.chunk slice size) := by
+  have hcap : (0 : Int) ≤ 0 ∧ (0 : Int) ≤ (Int.tdiv (slice.length : Int) 2) + 1 := by
+    have := Int.tdiv_nonneg (a := (slice.length : Int)) (b := 2) (by omega) (by omega)
+    omega
+  simp only [Gen.Funcs.Chunk, Model.C12.chunk, goMake, hcap, and_self, if_true, Int.toNat_zero, List.replicate_zero]
+  by_cases h : size ≤ 0
+  · simp [h, ofC12]
+  · simp only [h, decide_false, Bool.false_eq_true, if_false]
+    have hs : size = ((size.toNat : Nat) : Int) := by omega
+    have := chunk_loop slice size.toNat (by omega) slice 0 []
+    rw [← hs] at this
+    simp only [Int.natCast_zero] at this
+    rw [this]
+    cases Model.C12.chunkLoop slice size.toNat slice.length 0 [] <;> rfl
+
+
+/-! ## Callbacks without result (ForEach, ForEachRight): the callback is a state transformer -/
+
+theorem forEach_loop {σ : Type} (s0 : List Int) (fn : Int → σ → σ) (s : List Int) (k : Int) (st : σ) :
+    Gen.Funcs.ForEach.loop1 s0 fn s k st = Model.C12.forEach fn s st := by
+  induction s generalizing k st with
+  | nil => rfl
+  | cons v r ih => simp only [Gen.Funcs.ForEach.loop1, Model.C12.forEach, ih]
+
+theorem forEach_tie {σ : Type} (s : List Int) (fn : Int → σ → σ) (st : σ) :
+    Gen.Funcs.ForEach s fn st = Model.C12.forEach fn s st := by
+  simp only [Gen.Funcs.ForEach, forEach_loop]
+
+theorem forEachRight_loop {σ : Type} (s : List Int) (fn : Int → σ → σ) (n : Nat) (st : σ) :
+    Gen.Funcs.ForEachRight.loop1 s fn n st = ofC12 (Model.C12.forEachRightLoop fn s n st) := by
+  induction n generalizing st with
+  | zero => rfl
+  | succ n ih =>
+    simp only [Gen.Funcs.ForEachRight.loop1, Model.C12.forEachRightLoop, goIdx_nat]
+    cases h : s[n]? with
+    | none => rfl
+    | some v => simp only [ih]
+
+theorem forEachRight_tie {σ : Type} (s : List Int) (fn : Int → σ → σ) (st : σ) :
+    Gen.Funcs.ForEachRight s fn st = ofC12 (Model.C12.forEachRight s fn st) := by
+  simp only [Gen.Funcs.ForEachRight, Model.C12.forEachRight, len_toNat, forEachRight_loop]
+  cases Model.C12.forEachRightLoop fn s s.length st <;> rfl
+
+/-! ## Nth (struct `Bound` as a pair, method `Enclose` as a function) -/
+
+theorem goIdx_c13 (s : List Int) (i : Int) : toOut (goIdx s i) = Model.C13.index s i := by
+  unfold goIdx Model.C13.index
+  by_cases h : i < 0
+  · simp [h, toOut]
+  · simp only [h, if_false]
+    cases s[i.toNat]? <;> rfl
+
+theorem nth_tie (s : List Int) (nth : Int) : toOut (Gen.Funcs.Nth s nth) = Model.C13.Nth s nth := by
+  have hg : ∀ i : Int, toOut (match goIdx s i with
+      | Except.error e_ => Except.error e_
+      | Except.ok t => (Except.ok t : Res Int)) = Model.C13.index s i := by
+    intro i; rw [← goIdx_c13]; cases goIdx s i <;> rfl
+  have hen : Gen.Funcs.Bound_Enclose ((0 : Int), (s.length : Int)) nth = Model.C13.enclose 0 s.length nth := by
+    simp only [Gen.Funcs.Bound_Enclose, Model.C13.enclose, Gen.Funcs.Abs, Model.C13.Abs]
+    by_cases h : nth < 0 <;> simp [h]
+  have hab : Gen.Funcs.Abs nth = Model.C13.Abs nth := by simp [Gen.Funcs.Abs, Model.C13.Abs]
+  simp only [Gen.Funcs.Nth, Model.C13.Nth, hen]
+  by_cases h1 : (nth ≥ 0 ∧ nth > (s.length : Int) - 1) ∨ (nth < 0 ∧ (s.length : Int) - Model.C13.Abs nth < 0)
+  · have : ((decide (nth ≥ 0) && decide (nth > (s.length : Int) - 1)) ||
+        (decide (nth < 0) && decide ((s.length : Int) - Gen.Funcs.Abs nth < 0))) = true := by
+      rw [hab]; simpa using h1
+    simp only [this, if_true, h1]
+    rfl
+  · have : ((decide (nth ≥ 0) && decide (nth > (s.length : Int) - 1)) ||
+        (decide (nth < 0) && decide ((s.length : Int) - Gen.Funcs.Abs nth < 0))) = false := by
+      rw [hab]; simpa using h1
+    simp only [this, Bool.false_eq_true, if_false, h1]
+    cases he : Model.C13.enclose 0 (s.length : Int) nth <;> by_cases h2 : nth ≥ 0 <;>
+      simp only [h2, decide_true, decide_false, Bool.and_true, Bool.and_false,
+        Bool.false_eq_true, if_false, if_true, hab] <;> exact hg _
+
+/-! ## GroupBy = mapByIndex(slice, Map(slice, fn)): a Go `map[K][]V` built with `mapHas` / `mapSet` / `mapGet` -/
+
+theorem mapHas_any {β : Type} (m : List (Int × β)) (v : Int) : mapHas m v = m.any (fun e => e.1 == v) := by
+  induction m with
+  | nil => rfl
+  | cons e r ih =>
+    simp only [mapHas, List.any_cons, ih]
+    by_cases h : e.1 = v <;> simp [h]
+
+theorem map_upd_absent {β : Type} (r : List (Int × List β)) (v : Int) (x : β) (h : v ∉ r.map (·.1)) :
+    r.map (fun e => if e.1 == v then (e.1, e.2 ++ [x]) else e) = r := by
+  induction r with
+  | nil => rfl
+  | cons e r ih =>
+    simp only [List.map_cons, List.mem_cons, not_or] at h
+    have hne : ¬ (e.1 = v) := fun c => h.1 c.symm
+    rw [List.map_cons, ih h.2]
+    simp [hne]
+
+theorem mapSet_get_map {β : Type} (m : List (Int × List β)) (v : Int) (x : β)
+    (hn : (m.map (·.1)).Nodup) (hh : mapHas m v = true) :
+    mapSet m v (mapGet m v [] ++ [x]) = m.map (fun e => if e.1 == v then (e.1, e.2 ++ [x]) else e) := by
+  induction m with
+  | nil => simp [mapHas] at hh
+  | cons e r ih =>
+    simp only [List.map_cons, List.nodup_cons] at hn
+    by_cases he : e.1 = v
+    · have hab : v ∉ r.map (·.1) := he ▸ hn.1
+      rw [List.map_cons, map_upd_absent r v x hab]
+      simp [mapSet, mapGet, he]
+    · simp only [mapHas, he, if_false] at hh
+      rw [List.map_cons, ← ih hn.2 hh]
+      simp [mapSet, mapGet, he]
+
+theorem keys_map_upd {β : Type} (m : List (Int × List β)) (v : Int) (x : β) :
+    (m.map (fun e => if e.1 == v then (e.1, e.2 ++ [x]) else e)).map (·.1) = m.map (·.1) := by
+  induction m with
+  | nil => rfl
+  | cons e r ih =>
+    simp only [List.map_cons, ih]
+    by_cases h : e.1 = v <;> simp [h]
+
+theorem mapByIndex_loop (orig m0 : List Int) (ks : List Int) (idx : Nat) (result : List (Int × List Int))
+    (hn : (result.map (·.1)).Nodup) :
+    Gen.Funcs.mapByIndex.loop1 orig m0 ks (idx : Int) result
+      = ofC12 (Model.C12.mapByIndexLoop orig ks idx result) := by
+  induction ks generalizing idx result with
+  | nil => rfl
+  | cons v r ih =>
+    simp only [Gen.Funcs.mapByIndex.loop1, Model.C12.mapByIndexLoop, goIdx_nat, mapHas_any]
+    -- the map after the optional insertion of an empty entry
+    have hres : (if (!result.any (fun e => e.1 == v)) = true then mapSet result v ([] : List Int) else result)
+        = (if result.any (fun e => e.1 == v) = true then result else result ++ [(v, [])]) := by
+      cases ha : result.any (fun e => e.1 == v)
+      · simp only [Bool.not_false, if_true, Bool.false_eq_true, if_false]
+        exact mapSet_fresh result v [] (by rw [mapHas_any]; exact ha)
+      · simp
+    rw [hres]
+    generalize hr' : (if result.any (fun e => e.1 == v) = true then result else result ++ [(v, [])]) = result'
+    have hn' : (result'.map (·.1)).Nodup := by
+      subst hr'
+      cases ha : result.any (fun e => e.1 == v)
+      · simp only [Bool.false_eq_true, if_false, List.map_append, List.map_cons, List.map_nil]
+        rw [List.nodup_append]
+        refine ⟨hn, by simp, ?_⟩
+        intro a ha' b hb
+        simp only [List.mem_singleton] at hb
+        subst hb
+        intro hab; subst hab
+        rw [List.mem_map] at ha'
+        obtain ⟨e, he, hev⟩ := ha'
+        have : result.any (fun e => e.1 == a) = true := List.any_eq_true.mpr ⟨e, he, by simp [hev]⟩
+        simp [this] at ha
+      · simpa using hn
+    have hh' : mapHas result' v = true := by
+      subst hr'
+      rw [mapHas_any]
+      cases ha : result.any (fun e => e.1 == v)
+      · simp
+      · simpa using ha
+    cases hx : orig[idx]? with
+    | none => rfl
+    | some x =>
+      simp only []
+      rw [mapSet_get_map result' v x hn' hh']
+      have := ih (idx + 1) (result'.map fun e => if e.1 == v then (e.1, e.2 ++ [x]) else e)
+        (by rw [keys_map_upd]; exact hn')
+      simpa using this
+
+theorem groupBy_tie (s : List Int) (fn : Int → Int) : Gen.Funcs.GroupBy s fn = ofC12 (Model.C12.groupBy s fn) := by
+  simp only [Gen.Funcs.GroupBy, Model.C12.groupBy, map_tie, Gen.Funcs.mapByIndex]
+  cases Model.C12.mapPure s fn with
+  | panic => rfl
+  | ok keys =>
+    have := mapByIndex_loop s keys keys 0 [] (by simp)
+    simp only [Int.natCast_zero] at this
+    simp only [ofC12, this]
+    cases Model.C12.mapByIndexLoop s keys 0 [] <;> rfl
+
+/-! concrete instances: the regenerated definitions compute the expected answers (non-vacuity of the ties) -/
+example : Gen.Funcs.Chunk [1, 2, 3, 4, 5] 2 = .ok [[1, 2], [3, 4], [5]] := by rfl
+example : Gen.Funcs.Chunk [1, 2, 3] 0 = .error .panic := by rfl
+example : Gen.Funcs.Drop [1, 2, 3, 4] (-1) = .ok [1, 2, 3] := by rfl
+example : Gen.Funcs.LastIndexOf [7, 8, 7, 9] 7 = .ok 2 := by rfl
+example : Gen.Funcs.Nth [10, 20, 30] (-1) = .ok 30 := by rfl
+example : Gen.Funcs.Nth [10, 20, 30] 3 = .error .err := by rfl
+example : Gen.Funcs.Mean [] = .error .panic := by rfl
+example : Gen.Funcs.Unique [3, 1, 3, 2, 1] = [3, 1, 2] := by rfl
+example : Gen.Funcs.Without [1, 2, 3, 2, 4] [2] = [1, 3, 4] := by rfl
+example : Gen.Funcs.GroupBy [1, 2, 3, 4] (fun x => x.tmod 2) = .ok [(1, [1, 3]), (0, [2, 4])] := by rfl
+example : Gen.Funcs.Substr [104, 101, 108, 108, 111] 1 3 = .ok [101, 108, 108] := by rfl
+example : Gen.Funcs.Substr [104, 101, 108, 108, 111] (-2) 5 = .ok [108, 111] := by rfl
+example : Gen.Funcs.SplitAtIndex [97, 98, 99] 0 = .ok [[97], [98, 99]] := by rfl
+example : Gen.Funcs.PadLeft [97] 4 [45, 43] = .ok [45, 43, 45, 97] := by rfl
+example : Gen.Funcs.Unwrap [34, 97, 34] [34] = .ok [97] := by rfl
+example : Gen.Funcs.ForEachRight [1, 2, 3] (fun x (st : List Int) => st ++ [x]) [] = .ok [3, 2, 1] := by rfl
+example : Gen.Funcs.FindAll [5, 6, 7, 8] (fun x => decide (x > 5)) = [(1, 6), (2, 7), (3, 8)] := by rfl
 
 end GoguVerif.Theorems.GenTie
